@@ -20,6 +20,8 @@ pub const BW_CLASSES: &[&str] = &[
     "malformed_line_missing_field",
     "malformed_line_non_numeric",
     "malformed_line_negative",
+    "malformed_line_blank",
+    "malformed_line_empty_chromosome_field",
     "empty_input",
     "valid:only_zero_length_items_whole_file",
     "valid:only_zero_length_items_one_chromosome",
@@ -37,6 +39,8 @@ pub const BB_CLASSES: &[&str] = &[
     "malformed_line_missing_field",
     "malformed_line_non_numeric",
     "malformed_line_negative",
+    "malformed_line_blank",
+    "malformed_line_empty_chromosome_field",
     "empty_input",
     "valid:only_zero_length_items_whole_file",
     "valid:only_zero_length_items_one_chromosome",
@@ -381,6 +385,13 @@ pub fn c13(ctx: &Ctx, begin: &mut dyn FnMut(J)) -> Outcome {
                     g[k] = "abc".into();
                     g.join("\t")
                 }
+                // a blank (or white-space only) line in the middle of the data is not "end of input"
+                "malformed_line_blank" => (if r.chance(1, 2) { "" } else { "  " }).to_string(),
+                "malformed_line_empty_chromosome_field" => {
+                    let mut g = f.clone();
+                    g[0] = String::new();
+                    g.join("\t")
+                }
                 _ => {
                     let mut g = f.clone();
                     let k = 1 + r.below(2) as usize;
@@ -388,6 +399,11 @@ pub fn c13(ctx: &Ctx, begin: &mut dyn FnMut(J)) -> Outcome {
                     g.join("\t")
                 }
             };
+            if matches!(c, "malformed_line_blank" | "malformed_line_empty_chromosome_field") && idx + 1 == lines.len() {
+                // as the very last line this is merely trailing white space; keep at least one data line after it
+                let last = lines.len() - 1;
+                lines.swap(last - 1, last);
+            }
             text_override = Some(lines.join("\n") + "\n");
         }
         "empty_input" => {
